@@ -119,6 +119,15 @@ BasisLaws == LET i == Col(Frame, 1)  j == Col(Frame, 2)  kk == Col(Frame, 3)
                 /\ MulPoint(L, Unit(3, 3)) = VAdd(pos, kk)
                 /\ MatMul(BasisToLocal(pos, i, j, kk), L) = Idn(4)
                 /\ MatMul(L, BasisToLocal(pos, i, j, kk)) = Idn(4)
+\* C19: embedding a smaller matrix and a smaller vector (zeros appended, w = 1 for points, w = 0 for
+\* directions) commutes with multiplication
+EmbedLaw == LET A3 == [i \in 1 .. 3 |-> [j \in 1 .. 3 |-> r[3 * (i - 1) + j]]]
+                A2 == [i \in 1 .. 2 |-> [j \in 1 .. 2 |-> r[10 + 2 * (i - 1) + j]]]
+            IN /\ MatVec(Resize(A3, 4), Dir4(v1)) = Dir4(MatVec(A3, v1))
+               /\ MatVec(Resize(A3, 4), Point4(v1)) = Point4(MatVec(A3, v1))
+               /\ MatVec(Resize(A2, 3), Dir3(w2)) = Dir3(MatVec(A2, w2)) /\ MatVec(Resize(A2, 3), Point3(w2)) = Point3(MatVec(A2, w2))
+               /\ MatVec(Resize(A2, 4), <<w2[1], w2[2], F0, F0>>) = <<MatVec(A2, w2)[1], MatVec(A2, w2)[2], F0, F0>>
+               /\ Resize(MatMul(A3, Frame), 4) = MatMul(Resize(A3, 4), Resize(Frame, 4))
 \* the textbook frame matrix satisfies the look-at axioms (ordered field only)
 LookAtLaw == P < 0 =>
     LET s == Col(Frame, 1)  u == Col(Frame, 2)  f == Col(Frame, 3)
